@@ -4,7 +4,7 @@ import re
 
 from ..model import AnalysisError, Model, ClassInfo, walk_no_nested, norm_stmt, names_in
 from ..callgraph import CallGraph
-from .. import flow, effects
+from .. import flow, effects, sem
 
 EXPLANATION = (
     'The parsed specification dictionary is shared by every compile of it.  Decided: (R1) who may write: values derived from the '
@@ -23,30 +23,12 @@ DESC_PARAMS = {'type_descriptor', 'type_descriptors', 'member', 'members', 'modu
                'resolved_member', 'parameterized_type_descriptor', 'tag'}
 MUTATORS = {'append', 'extend', 'insert', 'pop', 'remove', 'clear', 'update', 'setdefault', 'sort', 'reverse', 'popitem'}
 
-# write sites of Compiler.pre_process* with the guard that makes a second run the identity
-# (function, regex on the normalised statement) -> (guard text that must occur in the function, reason)
-IDEMPOTENCE = [
-    ('pre_process_components_of_type', r"type_descriptor\['members'\] = self\.pre_process_components_of_expand_members",
-     "'components-of' in member", 'expansion replaces the {components-of} entries; none is left for a second run'),
-    ('pre_process_extensibility_implied_type', r'members\.append\(EXTENSION_MARKER\)', 'EXTENSION_MARKER not in members', 'appended only when absent'),
-    ('pre_process_tags_type', r"tag\['kind'\] = ", "'kind' not in tag", 'kind set only when absent'),
-    ('pre_process_tags_type_members', r"member\['tag'\] = \{\}", "'tag' not in member", 'tag dict created only when absent'),
-    ('pre_process_tags_type_members', r"member\['tag'\]\['number'\] = number", 'not is_any_member_tagged(members)',
-     'numbering happens only while no member is tagged; after the first run every member is'),
-    ('pre_process_default_value_bit_string', r"member\['default'\] = \(mask, number_of_bits\)", 'isinstance(default, tuple)', 'already-converted tuple returns early'),
-    ('pre_process_default_value_octet_string', r"member\['default'\] = binascii\.unhexlify", 'isinstance(default, bytes)', 'already-converted bytes return early'),
-    ('pre_process_parameterization_step_1_type', r'type_descriptor\.update\(parameterized_type_descriptor\)', "'actual-parameters' not in type_descriptor",
-     'actual-parameters is deleted afterwards; the second run returns early'),
-    ('pre_process_parameterization_step_1_type', r"type_descriptor\['module-name'\] = parameterized_module_name", "'actual-parameters' not in type_descriptor", 'same early return'),
-    ('pre_process_parameterization_step_1_type', r"del type_descriptor\['parameters'\]", "'actual-parameters' not in type_descriptor", 'same early return'),
-    ('pre_process_parameterization_step_1_type', r"del type_descriptor\['actual-parameters'\]", "'actual-parameters' not in type_descriptor", 'same early return'),
-    ('pre_process', r"module\['types'\] = types", "'parameters' not in type_descriptor", 'filtering parameterized types is a projection'),
-    # the following operate on the deep copy made in step_1_type
-    ('pre_process_parameterization_step_1_dummy_to_actual_type', r'.*', 'deepcopy-owned', 'operates on the deepcopy made by the caller'),
-    ('pre_process_default_value', r"member\['default'\] = member\['default'\] == 'TRUE'", "member['default'] in ['TRUE', 'FALSE']",
-     'a converted default is a bool and no longer one of the two strings'),
-    # option-dependent by design (reported under R3 when it depends on an option)
-    ('pre_process_default_value', r"member\['default'\] = value", 'key == member[\'default\']', 'ENUMERATED default name -> number (only under numeric_enums)'),
+# Site-specific second-run arguments that no generic recogniser covers, keyed by *what is written* (a fragment of the canonical
+# store text) -> (fragment a condition established before the write -- or a helper called in the written value -- must mention, reason)
+SPECIFIC = [
+    ("['members'] = ", "'components-of'", 'expansion replaces the {components-of} entries; none is left for a second run'),
+    ("['tag']['number'] = ", 'is_any_member_tagged(', 'numbering happens only while no member is tagged; after the first run every member is'),
+    ("['types'] = ", "'parameters'", 'filtering / instantiating parameterized types is a projection'),
 ]
 OPTION_ATTRS = ('_numeric_enums',)
 
@@ -189,6 +171,28 @@ def check(ctx):
             if f.name == 'compile_dict':
                 funcs.append(f)
 
+    # allowed writers: the pre-processing passes, and helpers that are called only from allowed writers
+    by_name = {}
+    for f in funcs:
+        by_name.setdefault(f.name, []).append(f)
+    callers = {}
+    for g in funcs:
+        for c_ in walk_no_nested(g):
+            if isinstance(c_, ast.Call):
+                nm = c_.func.attr if isinstance(c_.func, ast.Attribute) else (c_.func.id if isinstance(c_.func, ast.Name) else None)
+                if nm in by_name:
+                    for t_ in by_name[nm]:
+                        if t_._mod is g._mod or nm.startswith('pre_process'):
+                            callers.setdefault(t_, set()).add(g)
+
+    def is_allowed(f, seen=()):
+        if f.name.startswith('pre_process') or f.name.startswith('_compile_any_defined_by'):
+            return True
+        cs = callers.get(f, set()) - {f}
+        if not cs or f in seen:
+            return False
+        return all(is_allowed(g, seen + (f,)) for g in cs)
+
     n_sites = 0
     allowed_sites = []
     for f in funcs:
@@ -197,8 +201,7 @@ def check(ctx):
             if not aliases_at(f, root, node, al):
                 continue       # a local container, not the shared dictionary
             n_sites += 1
-            fname = f.name
-            allowed = fname.startswith('pre_process') or fname.startswith('_compile_any_defined_by')
+            allowed = is_allowed(f)
             cons = '%s [%s]' % (Model.qual(f), desc[:80])
             ctx.instance('C13.R1', cons, 'allowed writer' if allowed else 'VIOLATION', node=node, file=f._mod.rel)
             if not allowed:
@@ -211,38 +214,141 @@ def check(ctx):
         raise AnalysisError('C13.R1 found only %d descriptor write sites' % n_sites)
 
     # ---- R2 / R3 / R4 on allowed sites
+    comp_cls = base.classes['Compiler']
+    resolver = sem.class_resolver(comp_cls)
+
+    def deepcopy_owned(f, pname, seen=()):
+        """Every call of f passes for parameter pname a deep copy made by the caller (or a parameter the caller owns in the same way)."""
+        cs = callers.get(f, set()) - {f}
+        if not cs or f in seen:
+            return False
+        params = flow.param_names(f)
+        idx = params.index(pname) - (1 if params and params[0] == 'self' else 0)
+        for g in cs:
+            gv = sem.View(g)
+            for c_ in sem.method_calls(g, f.name, gv):
+                if idx >= len(c_.args):
+                    return False
+                a_ = c_.args[idx]
+                e_ = gv.expr(a_)
+                if isinstance(e_, ast.Call) and sem.callee_name(e_) == 'deepcopy':
+                    continue
+                if isinstance(a_, ast.Name):
+                    from ..copyrule import _last_dominating_binding
+                    dom = _last_dominating_binding(a_.id, g, Model.enclosing_stmt(c_))
+                    if dom is not None and isinstance(dom, ast.Assign) and isinstance(dom.value, ast.Call) and sem.callee_name(dom.value) == 'deepcopy':
+                        continue
+                    if a_.id in flow.param_names(g) and deepcopy_owned(g, a_.id, seen + (f,)):
+                        continue
+                # a part of an object the caller owns in the same way
+                r_ = alias_root(a_, set(flow.param_names(g)))
+                if r_ in flow.param_names(g) and deepcopy_owned(g, r_, seen + (f,)):
+                    continue
+                return False
+        return True
+
+    def second_run_argument(f, node, root, desc):
+        """-> (verdict, why): verdict True (idempotent) / False / None (undecided)"""
+        # operates on a deep copy
+        params = flow.param_names(f)
+        al_roots = {root}
+        if root in params and deepcopy_owned(f, root):
+            return True, 'operates on the deep copy made by its callers'
+        fv = sem.View(f)
+        e_root = fv.expr(ast.Name(id=root, ctx=ast.Load()))
+        rr = flow._root(e_root)
+        if rr in params and rr != root and deepcopy_owned(f, rr):
+            return True, 'operates on the deep copy made by its callers'
+        ps = sem.paths(f, resolver=resolver)
+        if ps is None:
+            return None, 'too many paths'
+        st_ = Model.enclosing_stmt(node)
+        reach = sem.reaching(ps, st_)
+        if not reach:
+            return None, 'write not found on the summarised paths'
+        # the canonical text of what is written
+        target_txt = None
+        written = None
+        if isinstance(node, ast.Assign) and isinstance(node.targets[0], ast.Subscript):
+            written = node.value
+        verdict_all = True
+        why = ''
+        for p, conds in reach:
+            lits = [(c[0], c[1]) for c in conds]
+            if any('sys.version_info' in t and not pol for t, pol in lits):
+                continue        # the Python 2 arm of a version test
+            store = None
+            store_val = None
+            for ev in p.events:
+                if ev[0] == 'store' and ev[2] is st_:
+                    store = ev[1]
+                    store_val = ev[3] if len(ev) > 3 else None
+            call_txt = None
+            for ev in p.events:
+                if ev[0] == 'call' and ev[2] is node:
+                    call_txt = ev[1]
+            ok_ = False
+            # (1) set only when the key is absent
+            if store and ' = ' in store and not store.startswith('del '):
+                tgt = store.split(' = ', 1)[0]
+                m_ = re.match(r"^(.*)\[('[^']*')\]$", tgt)
+                if m_ and (('%s in %s' % (m_.group(2), m_.group(1)), False) in lits):
+                    ok_, why = True, 'set only when the key is absent'
+                # (3) type tag: the current value was tested with isinstance and found not yet converted
+                if not ok_ and any(t.startswith('isinstance(%s, ' % tgt) and not pol for t, pol in lits):
+                    ok_, why = True, 'already-converted values are recognised by their type and left alone'
+                # (4) value set: rewritten only while it is one of the listed source spellings, into a value of another type
+                if not ok_ and any(t.startswith('%s in ' % tgt) and pol for t, pol in lits) and written is not None and isinstance(written, (ast.Compare, ast.Constant)):
+                    ok_, why = True, 'a converted value is no longer one of the source spellings'
+            # (2) add-if-absent
+            if not ok_ and call_txt:
+                m_ = re.match(r'^(.*)\.(append|add)\((.*)\)$', call_txt)
+                if m_ and ('%s in %s' % (m_.group(3), m_.group(1)), False) in lits:
+                    ok_, why = True, 'appended only when absent'
+            # (5) consumes its trigger: done only while a key is present which the same path removes
+            if not ok_:
+                present = [t for t, pol in lits if pol and re.match(r"^'[^']+' in ", t)]
+                removed = [ev[1] for ev in p.events if ev[0] == 'store' and ev[1].startswith('del ')] + \
+                          [ev[1] for ev in p.events if ev[0] == 'call' and re.search(r"\.pop\('", ev[1])]
+                for t in present:
+                    key, d_ = t.split(' in ', 1)
+                    if any(r_ == 'del %s[%s]' % (d_, key) or r_.startswith('%s.pop(%s' % (d_, key)) for r_ in removed):
+                        ok_, why = True, 'done only while %s is present, which this pass removes' % key
+            # (6) site-specific arguments
+            if not ok_ and (store or call_txt):
+                for frag, need, reason in SPECIFIC:
+                    if frag in (store or call_txt):
+                        hs_ = list(_called_helpers(f, comp_cls, node))
+                        if store_val is not None:
+                            for c2 in ast.walk(store_val):
+                                if isinstance(c2, ast.Call) and isinstance(c2.func, ast.Attribute) and isinstance(c2.func.value, ast.Name) and c2.func.value.id == 'self':
+                                    r2 = comp_cls.find_method(c2.func.attr)
+                                    if r2:
+                                        hs_.append(r2[1])
+                        helpers_src = ' '.join(ast.unparse(h_) for h_ in hs_)
+                        if any(need in t for t, pol in lits) or need in helpers_src or (store_val is not None and need in ast.unparse(store_val)):
+                            ok_, why = True, reason
+            if not ok_:
+                verdict_all = False
+                why = 'no condition established before it makes a second run the identity (conditions: %s)' % ('; '.join(('' if pol else 'not ') + t for t, pol in lits)[:200] or 'none')
+                break
+        return verdict_all, why
+
     for f, node, root, desc in allowed_sites:
-        fsrc = ast.unparse(f)
         cons = '%s [%s]' % (Model.qual(f), desc[:80])
         if f.name.startswith('_compile_any_defined_by'):
             ctx.instance('C13.R2', cons, 'option-driven by design', 'any_defined_by_choices is an explicit request to rewrite the type', nontrivial=False, node=node, file=f._mod.rel)
             continue
-        ok = False
-        why = ''
-        for fn, rx, guard, reason in IDEMPOTENCE:
-            if fn == f.name and re.match(rx, desc):
-                if guard == 'deepcopy-owned':
-                    # verify: every call of this function from outside itself passes a deepcopy
-                    ok = _callers_pass_deepcopy(model, f)
-                    why = reason if ok else 'a caller passes a descriptor that is not a deep copy'
-                else:
-                    ok = guard.replace(' ', '') in (fsrc + _helpers_src(f) + _callees_src(f)).replace(' ', '')
-                    why = reason if ok else 'guard `%s` is gone' % guard
-                break
+        ok, why = second_run_argument(f, node, root, desc)
+        if ok is None:
+            ctx.instance('C13.R2', cons, 'undecided', why, nontrivial=False, node=node, file=f._mod.rel)
+            ctx.note('C13.R2 undecided: %s (%s)' % (cons, why))
         else:
-            # generic idiom: the write is guarded by `'<key>' not in <root>`
-            for test, pol in flow.guards_of(node, f):
-                t = ast.unparse(test)
-                if pol and re.search(r"'[\w-]+' not in %s\b" % re.escape(root), t):
-                    ok = True
-                    why = 'generic: set only when the key is absent'
+            ctx.instance('C13.R2', cons, 'idempotent' if ok else 'VIOLATION', why, node=node, file=f._mod.rel)
             if not ok:
-                why = 'unlisted in-place rewrite without a `key not in %s` guard' % root
-        ctx.instance('C13.R2', cons, 'idempotent' if ok else 'VIOLATION', why, node=node, file=f._mod.rel)
-        if not ok:
-            ctx.violation('C13.R2', f._mod.rel, node, Model.qual(f),
-                          'in-place rewrite `%s`: %s -- compiling the same dictionary a second time applies it again and the result differs from a fresh parse' % (desc, why),
-                          stmt=desc)
+                ctx.violation('C13.R2', f._mod.rel, node, Model.qual(f),
+                              'in-place rewrite `%s`: %s -- compiling the same dictionary a second time applies it again and the result differs from a fresh parse' % (desc, why),
+                              stmt=desc)
         # R3: control/data dependence on an option
         dep = False
         for test, pol in flow.guards_of(node, f):
@@ -337,6 +443,18 @@ def _mutated_globals(model, mod):
                 if r and r in mod.consts:
                     out.add(r)
     _mg_cache[mod.rel] = (model, out)
+    return out
+
+
+def _called_helpers(f, cls, node):
+    """methods of the class called (self.x(...)) in the statement that holds node"""
+    out = []
+    st_ = Model.enclosing_stmt(node)
+    for c in ast.walk(st_):
+        if isinstance(c, ast.Call) and isinstance(c.func, ast.Attribute) and isinstance(c.func.value, ast.Name) and c.func.value.id == 'self':
+            r = cls.find_method(c.func.attr)
+            if r:
+                out.append(r[1])
     return out
 
 
